@@ -49,8 +49,9 @@
    the io.Reader under the bufio.Reader             source: list of chunks + terminal (src_read)
    ------------------------------------------------------------------------------------
 
-   Static tables: TRANSCRIBED from inflate_table.go by /verif/harness-engine/gentables.py into
-   EngineTables.v (not rebuilt by the model's table builder).
+   Static tables: TRANSCRIBED from inflate_table.go by /verif/bin/gen-engine-tables into
+   EngineTables.v; proofs/EngineFacts.v proves (by computation) that the model's own table
+   builder reproduces them entry by entry.
 
    Deliberate abstractions (everything else is meant to be literal):
    A1. Slices are values: state.input is a list plus a cached length; the aliasing of
@@ -316,7 +317,8 @@ Definition setCodes (table : arr) (off n : N) (count : arr) : arr * bool :=
 
 (* ---------------------------------------------------------------- small tables (huffcode.go / header.go) *)
 (* GenerateForHeader (hdr = true) and genForDists (hdr = false).
-   Result: short table, long table, codes (codes marked 0xFFFF), panic *)
+   Result: short table, long table, codes (codes marked 0xFFFF), and ENone, or EInvalidBlock
+   (genForDists returned false: the long-code groups do not fit LongCodeLookup), or EPanic *)
 Fixpoint long_fill (fuel : nat) (bound wrap : N) (long : arr) (base longBits lim minInc entry : N)
          (pan : bool) : arr * bool :=
   match fuel with
@@ -331,10 +333,10 @@ Fixpoint long_fill (fuel : nat) (bound wrap : N) (long : arr) (base longBits lim
   end.
 
 Definition gen_small (hdr : bool) (short long codes : arr) (ncodes : N) (count : arr)
-           (maxSymbol : N) : arr * arr * arr * bool :=
+           (maxSymbol : N) : arr * arr * arr * ierr :=
   let ct := forN 2 17 (fun i c => aset c i (u32 (aget c (i - 1) + aget count (i - 1)))) aempty in
   let codeListLen := aget ct 16 in
-  if codeListLen =? 0 then (aempty, long, codes, false)
+  if codeListLen =? 0 then (aempty, long, codes, ENone)
   else
     (* codeList *)
     let '(cl, _, pan0) :=
@@ -347,7 +349,7 @@ Definition gen_small (hdr : bool) (short long codes : arr) (ncodes : N) (count :
           if 32 <=? ins then (cl, ctt, true)
           else (aset cl ins i, aset ctt codeLength (ins + 1), pan))
         (aempty, ct, false) in
-    if pan0 then (short, long, codes, true)
+    if pan0 then (short, long, codes, EPanic)
     else
       let lastLength0 := hc_len (aget codes (aget cl 0)) in
       let lastLength := if 10 <? lastLength0 then 11 else lastLength0 in
@@ -374,10 +376,10 @@ Definition gen_small (hdr : bool) (short long codes : arr) (ncodes : N) (count :
       let longCodeStart := aget ct 11 in
       let longCodeLength := sub32 codeListLen longCodeStart in
       let '(short, long, codes, _, pan) :=
-        forN 0 longCodeLength (fun i (st : arr * arr * arr * N * bool) =>
+        forN 0 longCodeLength (fun i (st : arr * arr * arr * N * ierr) =>
           let '(short, long, codes, lcl, pan) := st in
-          if pan then st
-          else if 32 <=? longCodeStart + i then (short, long, codes, lcl, true)
+          if negb (ierr_eqb pan ENone) then st
+          else if 32 <=? longCodeStart + i then (short, long, codes, lcl, EPanic)
           else
             let li := aget cl (longCodeStart + i) in
             if hc_code (aget codes li) =? 0xFFFF then st
@@ -396,10 +398,13 @@ Definition gen_small (hdr : bool) (short long codes : arr) (ncodes : N) (count :
               let temp := frev tempRev in
               let grp := N.shiftl 1 (maxLength - 10) in
               let clrEnd := lcl + (if hdr then 2 * grp else grp) in
-              if 80 <? clrEnd then (short, long, codes, lcl, true)
+              (* genForDists: "if longCodeLookupLength+(1<<(maxLength-distLookupBits)) >
+                 len(t.LongCodeLookup) { return false }" (GenerateForHeader has no such check) *)
+              if negb hdr && (80 <? lcl + grp) then (short, long, codes, lcl, EInvalidBlock)
+              else if 80 <? clrEnd then (short, long, codes, lcl, EPanic)
               else
                 let long := forN lcl clrEnd (fun x t => aset t x 0) long in
-                let '(long, codes, pan) :=
+                let '(long, codes, panb) :=
                   fold_left (fun (a : arr * arr * bool) (sym : N) =>
                     let '(long, codes, pan) := a in
                     let codeLength := hc_len (aget codes sym) in
@@ -412,11 +417,11 @@ Definition gen_small (hdr : bool) (short long codes : arr) (ncodes : N) (count :
                                       (N.shiftl codeLength 10)) in
                     let '(long, pan) := long_fill small_fuel 80 mask16 long lcl longBits grp minInc entry pan in
                     (long, aset codes sym (hc_setcode (aget codes sym) 0xFFFF), pan))
-                    temp (long, codes, pan) in
+                    temp (long, codes, false) in
                 let short := aset short firstBits
                                (u16 (N.lor (N.lor lcl (N.shiftl maxLength 11)) smallFlagBit)) in
-                (short, long, codes, lcl + grp, pan))
-          (short, long, codes, 0, false) in
+                (short, long, codes, lcl + grp, if panb then EPanic else ENone))
+          (short, long, codes, 0, ENone) in
       (short, long, codes, pan).
 
 (* ---------------------------------------------------------------- header.go *)
@@ -456,10 +461,10 @@ Definition codeLenCodes (s : inflate) (hclen : N) : inflate * ierr :=
       if bad then (s, EInvalidBlock)
       else
         let d := dyn s in
-        let '(sh, lg, _, pan) := gen_small true (clcShort d) (clcLong d) codeHuff 19 codeCount 19 in
+        let '(sh, lg, _, e) := gen_small true (clcShort d) (clcLong d) codeHuff 19 codeCount 19 in
         let d := mkDyn (litAndDistHuff d) sh lg (codeList d) (litCount d) (distCount d)
                        (litExpandCount d) (nextCode d) (lenHuffCodes d) in
-        (set_dyn s d, if pan then EPanic else ENone)
+        (set_dyn s d, e)
   end.
 
 (* one code-length symbol decoded with clcTable (the block at the top of readLitDistLens's loop,
@@ -930,12 +935,13 @@ Definition setupDynamicHeader (s : inflate) : inflate * ierr :=
               else
                 (* codes = litAndDistHuff[litLen : litLen+distLen], as a 0-based copy *)
                 let codes := forN 0 distLen (fun i t => aset t i (aget huff (litLen + i))) aempty in
-                let '(dsh, dlg, codes, pan) :=
+                let '(dsh, dlg, codes, gerr) :=
                   gen_small false (distShort (tb s)) (distLong (tb s)) codes distLen (distCount d) distLen in
                 let huff := forN 0 distLen (fun i t => aset t (litLen + i) (aget codes i)) huff in
                 let d := set_dyn_huff d huff in
                 let s := set_dyn (set_tb s (mkTB (litShort (tb s)) (litLong (tb s)) dsh dlg)) d in
-                if pan then (s, EPanic)
+                (* "if !genForDists(...) { return errInvalidBlock }" *)
+                if negb (ierr_eqb gerr ENone) then (s, gerr)
                 else
                   let '(d, err) := setAndExpandLitLenHuffCode d in
                   let s := set_dyn s d in
@@ -1580,3 +1586,17 @@ Definition erun_ext (bufsize : N) (cs : list (list N)) (t : terminal) (reads : l
 Definition erun (bufsize : N) (cs : list (list N)) (t : terminal) (reads : list N)
   : list (list N * rres) :=
   fst (erun_ext bufsize cs t reads).
+
+(* Entry point for a line-protocol driver: result codes as small numbers
+   (0 ok, 1 EOF, 2 UnexpectedEOF, 3 Corrupt, 4 SrcErr, 5 NoProgress, 6 BufferFull, 7 Panic,
+   8 Stuck), the terminal as a bool; the second component is the number of source bytes consumed. *)
+Definition rres_code (r : rres) : N :=
+  match r with
+  | ROk => 0 | REOF => 1 | RUnexpectedEOF => 2 | RCorrupt _ => 3 | RSrcErr => 4
+  | RNoProgress => 5 | RBufferFull => 6 | RPanic => 7 | RStuck => 8
+  end.
+
+Definition erun_obs (bufsize : N) (chunks : list (list N)) (term_is_err : bool) (reads : list N)
+  : list (list N * N) * N :=
+  let '(l, c) := erun_ext bufsize chunks (if term_is_err then TErr else TEOF) reads in
+  (frev (fold_left (fun acc (br : list N * rres) => (fst br, rres_code (snd br)) :: acc) l []), c).
